@@ -1,7 +1,7 @@
 import os
 import core
 
-STREAMS = ["c10"]
+STREAMS = ["c10", "c20"]
 NEEDS_BINARY = True
 HARNESS_ARGS = ("-rdpgw", os.path.join(core.BUILD, "rdpgw"))
 RULE = ("checked handlers of the model against the real functions: readHeader on every length 0..20 x 22 size fields "
@@ -26,7 +26,7 @@ ASSUMPTIONS = ["partial: absence of panics below the modelled sites (third-party
 
 
 def nontrivial(c):
-    if c.kind == "process":
+    if c.kind in ("process", "kdc", "kdcrecv", "exact"):
         return True
     if c.kind == "hdrc":
         return len(c.fields[0]) >= 16
